@@ -110,8 +110,9 @@ pub fn buffers() -> Vec<Vec<u8>> {
     for i in 0..5200u32 { big.push(b"0123456789abcdefghijklmnopqrstuvwxyz_"[(i * 7 % 37) as usize]); }
     big[100..103].copy_from_slice(b"ABC"); big[353..356].copy_from_slice(b"DEF");
     big[10..13].copy_from_slice(b"abc"); big[2000..2004].copy_from_slice(b"qqqq");
-    let mut big2 = vec![b'q'; 4500];
+    let mut big2: Vec<u8> = (0..5100u32).map(|i| b"ghijklmnop"[(i % 10) as usize]).collect();
     big2[0..5].copy_from_slice(b"12345");
+    for b in big2[600..640].iter_mut() { *b = b'q'; }
     let xored: Vec<u8> = b"secret".iter().map(|b| b ^ 0x21).collect();
     let mut mixed = b"12abcdab zz x123y hello ".to_vec(); mixed.extend_from_slice(&xored); mixed.extend_from_slice(b" abab qq");
     vec![
@@ -305,16 +306,21 @@ pub fn persistent_ops(h: &[Op]) -> (bool, Vec<Op>) {
     (blocks, out)
 }
 
-/// history on a used scanner, then the probe
+/// history on a used scanner, then the probe; everything on one new thread
+/// (so that the per-thread module caches start empty for every case)
 pub fn run_used<'r>(w: &World<'r>, h: &[Op], p: &Probe) -> (ProbeRun, Vec<&'static str>, bool) {
-    let mut s = AnyScanner::Contig(yara_x::Scanner::new(&w.sets[w.rs].rules));
-    let mut tags = vec![];
-    for op in h { if let Some(t) = apply(w, &mut s, op) { tags.push(t); } }
-    // a block sequence left open by the history is closed before the probe
-    let pending = match &mut s { AnyScanner::Blocks(b) => b.verif_state_digest().contains("blk.needs_reset=false"), _ => false };
-    if pending { if let Some(t) = apply(w, &mut s, &Op::BlockFinish { timeout_at: None }) { tags.push(t); } }
-    let blocks = s.is_blocks();
-    (run_probe(w, &mut s, p), tags, blocks)
+    std::thread::scope(|sc| {
+        sc.spawn(|| {
+            let mut s = AnyScanner::Contig(yara_x::Scanner::new(&w.sets[w.rs].rules));
+            let mut tags = vec![];
+            for op in h { if let Some(t) = apply(w, &mut s, op) { tags.push(t); } }
+            // a block sequence left open by the history is closed before the probe
+            let pending = match &mut s { AnyScanner::Blocks(b) => b.verif_state_digest().contains("blk.needs_reset=false"), _ => false };
+            if pending { if let Some(t) = apply(w, &mut s, &Op::BlockFinish { timeout_at: None }) { tags.push(t); } }
+            let blocks = s.is_blocks();
+            (run_probe(w, &mut s, p), tags, blocks)
+        }).join().unwrap()
+    })
 }
 
 /// the probe on a fresh scanner carrying only the persistent state, on a fresh thread
